@@ -305,8 +305,14 @@ socket_recv_messages (NiceSocket *sock,
   if (priv->state == HTTP_STATE_CONNECTED) {
     guint i;
 
-    /* Fast path: pass through to the base socket once we’re connected. */
-    if (priv->base_socket) {
+    if (priv->recv_buf_fill > 0) {
+      /* Data which followed the proxy’s reply and did not fit in the caller’s
+       * buffers when the connection was established is still in the ring
+       * buffer: hand it out before reading from the base socket again. */
+      ret = memcpy_ring_buffer_to_input_messages (priv,
+          recv_messages, n_recv_messages);
+    } else if (priv->base_socket) {
+      /* Fast path: pass through to the base socket once we’re connected. */
       ret = nice_socket_recv_messages (priv->base_socket,
           recv_messages, n_recv_messages);
     }
